@@ -589,7 +589,7 @@ class C15(Prop):
     prop_module = "Props.C15"
     prop_file = "Props/C15.v"
     coq_targets = ["Props/C15.vo", "Run/Judge_C15.vo"]
-    sizes = {"quick": 1800, "thorough": 40000}
+    sizes = {"quick": 1800, "thorough": 36000}
     shard = 250
     design_ref = "DESIGN.md section 6 C15"
     rule = ("stream 1 (40%): generated expression trees of the supported subset (depth <= 8 quick / 14 thorough) printed "
@@ -639,9 +639,11 @@ class C15(Prop):
     # -------------------------------------------------------------- generation
     def gen_expr_case(self, rng, tier):
         maxd = 8 if tier == "quick" else 14
-        d = rng.choice([1, 2, 2, 3, 3, 4, 5, 6, maxd])
-        e = ExprGen(rng, d).expr(d)
-        return e
+        while True:
+            d = rng.choice([1, 2, 2, 3, 3, 4, 5, 6, maxd])
+            e = ExprGen(rng, d).expr(d)
+            if len(dump(e)) <= 6000:       # keeps the printed text below about 3 kB (the judge runs the model on it)
+                return e
 
     def case_from_tree(self, e, rng, mode=None):
         paren_p = rng.choice([0, 0, 0.05, 0.15, 0.3])
